@@ -35,8 +35,23 @@ class C12Stream(G.TreeStream):
         return out
 
 
+class C12RefreshStream(G.RefreshStream):
+    """The property judged on every topology the one graph object is taken through."""
+    _one = C12Stream()
+
+    def oracle(self, case, obs):
+        out = []
+        n = len(case["steps"])
+        for i, (st, o) in enumerate(zip(case["steps"], obs)):
+            for v in self._one.oracle(st, o):
+                name, rest = v["what"].split(":", 1)
+                where = "freshly built graph" if i == 0 else f"same graph object after refresh_from #{i}"
+                out.append({"what": f"{name}: [topology {i + 1} of {n}, {where}]{rest}", "finding": v["finding"]})
+        return out
+
+
 def streams():
-    return [C12Stream()]
+    return [C12Stream(), C12RefreshStream()]
 
 
 ASSUMPTIONS = [
@@ -70,5 +85,8 @@ META = {
                   "two predecessors is outside the premise. A CHP below the grid meter itself (grid -> meter -> CHPs only) is "
                   "outside the premise: consumer/producer formulas then read the CHP component, which has no power stream "
                   "(Example C12_chp_below_grid_meter_is_read_directly). NaN/None handling of missing samples is C13's subject. "
+                  "Statefulness of the graph OBJECT (anything it remembers across refresh_from) is not in the model, which is "
+                  "per topology; it is tied by the `refresh` stream, which takes one graph object through 2-3 topologies that "
+                  "re-use the component ids and compares all formulas with the model/oracle of the current topology each time. "
                   "Two defects were found and fixed in /repo (F9, F9b in known_findings.json).",
 }
